@@ -7,7 +7,7 @@
              state after the last step.
    Simulate: tlc -simulate, long random histories up to Depth, every prefix emitted.
    Constants come from a generated module (bin/check). *)
-EXTENDS UrlApi, Json
+EXTENDS UrlApi, Options, Json
 CONSTANTS Starts,      \* set of start URL strings (handle 1)
           SetterOps,   \* set of <<setter name, value>>
           SpOps,       \* set of <<list op, name, value>>
@@ -21,7 +21,7 @@ CONSTANTS Starts,      \* set of start URL strings (handle 1)
 Free == IF \E h \in Handles : ~objs[h].live THEN {CHOOSE h \in Handles : ~objs[h].live /\ \A k \in Handles : ~objs[k].live => h <= k} ELSE {}
 
 MInit == \E s \in Starts :
-           LET r == Parse(s, None, None)
+           LET r == ParseO(s, None, None, POpts)
                os == [h \in Handles |-> IF h = 1 THEN Obj(r.u) ELSE Dead] IN
            /\ r.res = "ok"
            /\ objs = os /\ actor = 1
